@@ -370,6 +370,19 @@ class Conc:
                     self.store(obj, Opt(None), env)
                     return 0
             raise Unknown("optional method %s" % short)
+        if n.get("ck") == "member" and isinstance(obj, dict) and strip_tmpl(n.get("cls") or "") in ("QChar", "QCharRef") and not [a for a in args if a.get("k") != "defaultarg"]:
+            u = self.eval(obj, env, depth)
+            if isinstance(u, str) and len(u) == 1:
+                u = ord(u)
+            if isinstance(u, int):
+                tests = {"isHighSurrogate": 0xD800 <= u <= 0xDBFF, "isLowSurrogate": 0xDC00 <= u <= 0xDFFF, "isSurrogate": 0xD800 <= u <= 0xDFFF, "isNull": u == 0,
+                         "isDigit": chr(u).isdigit() if u < 0xD800 else None, "isSpace": chr(u).isspace() if u < 0xD800 else None, "isLetter": chr(u).isalpha() if u < 0xD800 else None,
+                         "isUpper": chr(u).isupper() if u < 0xD800 else None, "isLower": chr(u).islower() if u < 0xD800 else None}
+                if short in tests and tests[short] is not None:
+                    return int(tests[short])
+                if short in ("unicode", "toLatin1", "cell") or n.get("conv"):
+                    return u if short != "toLatin1" or u < 256 else 0
+            raise Unknown("QChar method %s" % short)
         if n.get("ck") == "member" and isinstance(obj, dict):
             cls = strip_tmpl(n.get("cls") or "")
             if cls in STRING_TYPES or cls.startswith("QString"):
@@ -379,6 +392,13 @@ class Conc:
                     real = [a for a in args if a.get("k") != "defaultarg"]
                     if short in ("isEmpty", "isNull", "empty") and not real:
                         return int(o == "")
+                    if short in ("at", "operator[]") and len(real) == 1:
+                        i_ = self.eval(real[0], env, depth)
+                        if isinstance(i_, int) and 0 <= i_ < len(o):
+                            return ord(o[i_])       # a QChar: its UTF-16 code unit
+                        raise Unknown("character index %r outside the string" % (i_,))
+                    if short in ("front", "back") and not real and o:
+                        return ord(o[0] if short == "front" else o[-1])
                     if short in ("size", "length", "count") and not real:
                         return len(o)
                     if short == "toLower" and not real:
